@@ -323,6 +323,8 @@ def kani_cmd(h, target_dir, extra=()):
     pkg = "pie_graph" if h.file.crate == "graph" else "pie"
     cmd = ["cargo", "kani", "-p", pkg, "--harness", h.qualified, "--exact", "--target-dir", target_dir,
            "-Z", "stubbing", "-Z", "unstable-options", "--no-assertion-reach-checks"]
+    if os.environ.get("VERIF_RESTRICT_VTABLE", "1") == "1":
+        cmd += ["-Z", "restrict-vtable"]
     cmd += list(extra)
     return cmd
 
@@ -369,6 +371,8 @@ def judge(h, rc, out, timed_out):
     if "Status: ERROR" in out or re.search(r"CBMC failed|out of memory|std::bad_alloc|Killed", out):
         if not r["checks"]:
             return "inconclusive", dict(r, reason="cbmc error / out of memory")
+    if re.search(r"ran out of memory|Out of memory|std::bad_alloc", out):
+        return "inconclusive", dict(r, reason="solver out of memory (cap)")
     if not r["checks"] or r["verdict"] is None:
         return "inconclusive", dict(r, reason="no verdict in output")
     failed = [c for c in r["checks"] if c["status"] == "FAILURE"]
